@@ -31,6 +31,10 @@ def obligations(tier: str) -> list[Ob]:
         )
     )
     obs.append(Ob("lexer_validation", "vlib.props.C05:lexer_validation", {}, timeout_s=900, engine="E4"))
+    # the docstring macro itself (descriptions, examples, titles reach it unescaped): the real helpers.jinja source is
+    # evaluated symbolically, every path's output must be exactly one string literal
+    for n in range(0, (6 if q else 10) + 1):
+        obs.append(Ob(f"macro_safe_docstring[n={n}]", "vlib.props.C05:macro_docstring", {"n": n, "known_key": "macro_safe_docstring", "solver_timeout_s": 240 if q else 1500}, timeout_s=400 if q else 2000, engine="E1"))
     for spec in ("rse_in_dq", "rse_in_docstring", "rse_in_toml", "string_default"):
         obs += spec_obs(M, spec, spec, {}, "kernel_" + spec, list(range(0, (K if spec != "string_default" else min(K, 4)) + 1)), 99, to)
     return obs
@@ -226,3 +230,147 @@ def lexer_validation(tier: str = "quick", known: list | None = None, **_: object
     if r["mismatches"]:
         return result("error", f"lexer models disagree with CPython/tomllib on {r['mismatches']} strings: {r['examples'][:3]}")
     return result("holds", f"lexer models agree with compile()/tokenize/tomllib on all {r['strings']} hostile strings", queries=r["strings"], cases=["lexer-validation"], samples=[r])
+
+
+# ================================================================================================ the docstring macro
+def _real_macro_literal(content: str, omit: bool):
+    """Render the real macro with jinja2 and judge the text with CPython: (ok, rendered, why)."""
+    import ast
+    import warnings
+
+    from .. import jinja_sym as js
+
+    def one(c):
+        text = js.render_real("helpers.jinja", "safe_docstring", content=c, omit_if_empty=omit)
+        if text == "":
+            return text, ""
+        with warnings.catch_warnings():
+            warnings.simplefilter("ignore")
+            try:
+                tree = compile(text + "\n", "t", "exec", flags=ast.PyCF_ONLY_AST)
+            except (SyntaxError, ValueError) as e:
+                return text, e
+        if len(tree.body) == 1 and isinstance(tree.body[0], ast.Expr) and isinstance(tree.body[0].value, ast.Constant) and isinstance(tree.body[0].value.value, str):
+            return text, tree.body[0].value.value
+        return text, SyntaxError("not a single string literal expression")
+
+    text, val = one(content)
+    if isinstance(val, Exception):
+        return False, text, f"{type(val).__name__}: {val}"
+    if text == "":
+        return True, text, "omitted"
+    # the literal has to *contain* the text: a sentinel appended to the content must extend the decoded value
+    _, val2 = one(content + "Z")
+    if isinstance(val2, Exception) or not isinstance(val2, str) or len(val2) != len(val) + 1:
+        return False, text, "the text is not wholly inside the literal (sentinel test)"
+    return True, text, "one literal"
+
+
+def macro_docstring(n: int, tier: str = "quick", known: list | None = None, solver_timeout_s: int = 240, **_: object) -> dict:
+    """For every content string of length n over Sigma and both values of omit_if_empty: whatever path
+    `safe_docstring` (templates/helpers.jinja, evaluated symbolically from its jinja2 node tree) takes, its output is
+    empty or exactly one (raw or plain) triple-quoted string literal."""
+    import random
+    import time
+
+    import z3
+
+    from .. import jinja_sym as js
+    from .. import lexers
+    from ..bstr import core
+    from ..bstr.core import Unsupported
+    from ..common import fingerprint, result, seed
+    from ..findings import CLASSES
+
+    known = known or []
+    t_all = time.time()
+    bounds = {"length": f"== {n}", "alphabet": f"Sigma ({len(core.SIGMA)} chars)", "omit_if_empty": "both"}
+    _, tdir = js.template_env()
+    funcs = [fingerprint(tdir / "helpers.jinja")]
+    v, cons = core.sym_input(n, "c", exact=True)
+    queries, solver_s = 0, 0.0
+    try:
+        runs = [(omit, js.run_macro("helpers.jinja", "safe_docstring", {"content": v, "omit_if_empty": omit})) for omit in (False, True)]
+    except Unsupported as e:
+        return result("inconclusive", f"unsupported construct in the macro: {e}", bounds=bounds, functions=funcs)
+    # ---- per path: (omit, condition, output BStr, violation)
+    table = []
+    for omit, paths in runs:
+        for p in paths:
+            if not p.out:
+                table.append((omit, p.cond, None, z3.BoolVal(False)))
+                continue
+            head, tail = p.out[0], p.out[-1]
+            if not (isinstance(head, str) and isinstance(tail, str) and tail.endswith('"""') and (head.startswith('r"""') or head.startswith('"""'))):
+                return result("inconclusive", f"output shape of the macro not recognised: starts {head!r}, ends {tail!r}", bounds=bounds, functions=funcs)
+            raw = head.startswith("r")
+            body = core.concat([head[4 if raw else 3:], *p.out[1:-1], tail[:-3]])
+            safe, cplx = lexers.py_triple_body(body, z3.BoolVal(raw))
+            table.append((omit, p.cond, core.concat(p.out), z3.Not(z3.And(safe, z3.Not(cplx)))))
+    # ---- translator validation against jinja2 itself
+    rnd = random.Random(seed())
+    hostile = ['"', "\\", "'", " ", "\n", "a", "{", "#", "\t", "\0"]
+    tests = {"".join(rnd.choice(hostile) for _ in range(n)) for _ in range(250)} | {"".join(rnd.choice(core.SIGMA) for _ in range(n)) for _ in range(60)}
+    tests |= {t[:n] for t in ('"""', '\\"""', '"""\\', 'a"""b', '""""""', '\\', "   ", "", '"\\""', '\\"\\"\\"') if len(t[:n]) == n}
+    mism = []
+    for t in sorted(tests):
+        subs = core.subst_for(v, t)
+        for omit in (False, True):
+            real = js.render_real("helpers.jinja", "safe_docstring", content=t, omit_if_empty=omit)
+            taken = [(c, o) for (om, c, o, _) in table if om == omit and core.evaluate(c, subs) is True]
+            if len(taken) != 1:
+                mism.append((t, omit, f"{len(taken)} paths taken"))
+                continue
+            model = "" if taken[0][1] is None else core.evaluate(taken[0][1], subs)
+            if model != real:
+                mism.append((t, omit, model, real))
+    if mism:
+        return result("error", f"translator validation failed: symbolic evaluation of the macro and jinja2 disagree on {len(mism)} inputs: {mism[:2]}", bounds=bounds, functions=funcs)
+    # ---- known classes that are still live are assumed away
+    live, hits = [], []
+    for e in known:
+        w = e["witness"]
+        text = w[0] if isinstance(w, list) else w
+        ok, _, _ = _real_macro_literal(text, False)
+        if not ok:
+            hits.append(e["id"])
+            if e["class"] not in live:
+                live.append(e["class"])
+    excl = [z3.Not(CLASSES[c][0]([v])) for c in live]
+    s = z3.Solver()
+    s.set("timeout", solver_timeout_s * 1000)
+    s.add(*cons)
+    t0 = time.time()
+    s.push()
+    s.add(z3.Or([z3.And(c, z3.Not(bad)) for (_, c, o, bad) in table if o is not None]))
+    nontrivial = str(s.check()) == "sat"
+    s.pop()
+    queries += 1
+    verdicts = []
+    wit = []
+    for i, (omit, c, o, bad) in enumerate(table):
+        if o is None:
+            continue
+        s.push()
+        s.add(c, bad, *excl)
+        r = str(s.check())
+        queries += 1
+        verdicts.append(r)
+        if r == "sat":
+            text = core.decode(s.model(), v)
+            ok, rendered, why = _real_macro_literal(text, omit)
+            wit.append({"what": "safe_docstring does not keep the text inside one string literal", "input": {"content": text, "omit_if_empty": omit}, "observed": {"rendered": rendered, "verdict": why}, "reproduced": not ok, "replay_func": "vlib.props.C05:replay_macro"})
+        s.pop()
+    solver_s += time.time() - t0
+    common = dict(bounds=bounds, functions=funcs, queries=queries, solver_s=round(solver_s, 2), known_hits=hits, nontrivial=nontrivial, cases=[f"macro_safe_docstring[n={n}]"], stubs=["consumer model: vlib.lexers.py_triple_body (validated against compile() by lexer_validation)", "jinja2's own parser supplies the node tree and the whitespace control; the evaluator is validated against jinja2 rendering on every run"])
+    sample = {"query": f"exists content of length {n}, path p of safe_docstring: cond(p) and output(p) is not one string literal", "paths": len(table), "verdicts": verdicts, "assumed_away": live, "translator_validation": f"{2 * len(tests)} renderings, 0 mismatches"}
+    if wit:
+        return result("violated", f"sat: {wit[0]['input']!r} -> {wit[0]['observed']!r}", witnesses=wit[:3], samples=[sample], **common)
+    if any(r != "unsat" for r in verdicts):
+        return result("inconclusive", f"solver answered {verdicts}", samples=[sample], **common)
+    return result("violated" if hits else "holds", f"unsat on all {len(verdicts)} paths ({round(time.time() - t_all, 1)}s)" + (f"; assumed away {live}" if live else ""), samples=[sample], **common)
+
+
+def replay_macro(w: dict) -> dict:
+    ok, rendered, why = _real_macro_literal(w["input"]["content"], w["input"]["omit_if_empty"])
+    return {"reproduced": not ok, "observed": {"rendered": rendered, "verdict": why}}
